@@ -1187,6 +1187,13 @@ func (r condition) string() string {
 
 	// begin default presentation
 	// handler ...
+	if r.op == nil {
+		// nothing sensible can be rendered without
+		// an operator (a user ValidityPolicy may have
+		// declared such an instance valid)
+		return ``
+	}
+
 	var raw string
 	if meth := getStringer(r.ex); meth != nil {
 		raw = meth()
